@@ -820,6 +820,106 @@ class Violation:
         self.sig = sig or label
 
 
+class ExactReal(Fraction):
+    """exact rational that absorbs floats (a float is read as the rational it denotes): used for the second attempt of a witness
+    validation, where the concrete re-run has to follow the 'floats are exact rationals' reading of the symbolic run"""
+
+    __slots__ = ()
+
+    @staticmethod
+    def _in(o):
+        if isinstance(o, float):
+            return Fraction(o)
+        if isinstance(o, (int, Fraction)) and not isinstance(o, bool):
+            return o
+        if isinstance(o, bool):
+            return int(o)
+        try:
+            import numpy as _np
+
+            if isinstance(o, _np.floating):
+                return Fraction(float(o))
+            if isinstance(o, _np.integer):
+                return int(o)
+        except Exception:  # noqa
+            pass
+        return None
+
+    @staticmethod
+    def _out(r):
+        return ExactReal(r) if isinstance(r, Fraction) else r
+
+    def _bin(self, o, f, swap=False):
+        x = ExactReal._in(o)
+        if x is None:
+            return NotImplemented
+        a, b = (Fraction(x), Fraction(self)) if swap else (Fraction(self), Fraction(x))
+        return ExactReal._out(f(a, b))
+
+    def __add__(self, o):
+        return self._bin(o, lambda a, b: a + b)
+
+    def __radd__(self, o):
+        return self._bin(o, lambda a, b: a + b, True)
+
+    def __sub__(self, o):
+        return self._bin(o, lambda a, b: a - b)
+
+    def __rsub__(self, o):
+        return self._bin(o, lambda a, b: a - b, True)
+
+    def __mul__(self, o):
+        return self._bin(o, lambda a, b: a * b)
+
+    def __rmul__(self, o):
+        return self._bin(o, lambda a, b: a * b, True)
+
+    def __truediv__(self, o):
+        return self._bin(o, lambda a, b: a / b)
+
+    def __rtruediv__(self, o):
+        return self._bin(o, lambda a, b: a / b, True)
+
+    def __floordiv__(self, o):
+        return self._bin(o, lambda a, b: a // b)
+
+    def __rfloordiv__(self, o):
+        return self._bin(o, lambda a, b: a // b, True)
+
+    def __mod__(self, o):
+        return self._bin(o, lambda a, b: a % b)
+
+    def __rmod__(self, o):
+        return self._bin(o, lambda a, b: a % b, True)
+
+    def __pow__(self, o, mod=None):
+        x = ExactReal._in(o)
+        if x is not None and Fraction(x).denominator == 1:
+            return ExactReal(Fraction(self) ** int(x))
+        return float(self) ** float(o)
+
+    def __rpow__(self, o):
+        x = ExactReal._in(o)
+        if x is not None and self.denominator == 1:
+            return ExactReal(Fraction(x) ** int(self))
+        return float(o) ** float(self)
+
+    def __neg__(self):
+        return ExactReal(-Fraction(self))
+
+    def __pos__(self):
+        return self
+
+    def __abs__(self):
+        return ExactReal(abs(Fraction(self)))
+
+    def __hash__(self):
+        return Fraction.__hash__(self)
+
+    def __repr__(self):
+        return repr(float(self)) if self.denominator.bit_length() > 64 else f"{Fraction(self)}"
+
+
 class Ctx:
     current = None
 
@@ -889,6 +989,8 @@ class Ctx:
             if name not in self.values:
                 raise ReplayDiverged(f"no value for {name}")
             x = self.values[name]
+            if getattr(self, "exact_reals", False):
+                return ExactReal(Fraction(x))
             return float(Fraction(x)) if not isinstance(x, float) else x
         v = z3.Real(self._name(name))
         self.vars[name] = v
